@@ -182,6 +182,8 @@ def oracle_c03(rr: Any, spec: Dict[str, Any]) -> "tuple[List[Violation], Dict[st
     probe_running: set = set()
     yield_order = [e["m"] for e in tr if e["k"] == "yield"]
     enter_order = []
+    hooks_open: Dict[Any, int] = {}
+    exited: set = set()
     for e in tr:
         k, d = e["k"], e["m"]
         if k == "cb_enter":
@@ -193,7 +195,16 @@ def oracle_c03(rr: Any, spec: Dict[str, Any]) -> "tuple[List[Violation], Dict[st
             if A == 1 and len(open_cb) > 1:
                 v.append(Violation("not-serial", "limit 1 but two messages overlap"))
         elif k == "cb_exit":
-            open_cb.discard(d)
+            exited.add(d)
+            if not hooks_open.get(d):
+                open_cb.discard(d)
+        elif k.startswith("mw:") and e.get("slow") and d is not None:
+            # a middleware hook called for a message is part of the processing of that message, for as long as it runs
+            hooks_open[d] = hooks_open.get(d, 0) + 1
+        elif k.startswith("mw_end:") and d is not None:
+            hooks_open[d] = hooks_open.get(d, 0) - 1
+            if hooks_open[d] <= 0 and d in exited:
+                open_cb.discard(d)
         elif k == "task_start":
             running.add(d)
             if A and len(running) > A:
